@@ -93,17 +93,29 @@ def erase(v):
     return v
 
 
-def load_with(cfg, text, subst):
+def load_with(cfg, text, subst, route=0):
+    """route = how the caller hands the substitutes over: 0 parser and decoder share one grammar object;
+    1 the decoder was made with a grammar object of its own; 2 the decoder was made without a grammar;
+    3 (default-loader configuration only) through pvl.loads(text, grammar=..., decoder=..., **classes)"""
     pc, gc, dc, _ = io.CONFIGS[cfg]
     g = gc()
-    if subst == "text":
-        d = dc(grammar=g, real_cls=TextReal, quantity_cls=Q2)
-        p = pc(grammar=g, decoder=d, module_class=Mod, group_class=Grp, object_class=Obj)
-    elif subst:
-        d = dc(grammar=g, real_cls=Rec, quantity_cls=Q2)
-        p = pc(grammar=g, decoder=d, module_class=Mod, group_class=Grp, object_class=Obj)
-    else:
+    if not subst:
         p = pc(grammar=g, decoder=dc(grammar=g))
+        return core.with_timer(5.0, p.parse, text)
+    real = TextReal if subst == "text" else Rec
+    if route == 2 and type(dc().grammar) is not type(g):
+        route = 0      # this decoder class's default grammar is not the configuration's: not a way to use it
+    if route == 1 or route == 3:
+        d = dc(grammar=gc(), real_cls=real, quantity_cls=Q2)
+    elif route == 2:
+        d = dc(real_cls=real, quantity_cls=Q2)
+    else:
+        d = dc(grammar=g, real_cls=real, quantity_cls=Q2)
+    if route == 3 and cfg == "OMNI":
+        import pvl
+        return core.with_timer(5.0, lambda: pvl.loads(text, grammar=g, decoder=d, module_class=Mod,
+                                                       group_class=Grp, object_class=Obj))
+    p = pc(grammar=g, decoder=d, module_class=Mod, group_class=Grp, object_class=Obj)
     return core.with_timer(5.0, p.parse, text)
 
 
@@ -139,17 +151,17 @@ def run(ctx):
                 continue
             Rec.seen = []
             try:
-                sub = load_with(cfg, text, True)
+                sub = load_with(cfg, text, True, route=i % 4)
             except Exception as e:
                 if bad is None:
                     bad = {"what": "with substitute classes the load fails (%s) where the plain load succeeds" % type(e).__name__,
-                           "cfg": cfg, "text": text}
+                           "cfg": cfg, "text": text, "route": i % 4}
                 continue
             stats[cfg + ":ok"] += 1
             if i % 3 == 0:
                 # a second substitute real class, one that is not a numbers.Number
                 try:
-                    sub2 = load_with(cfg, text, "text")
+                    sub2 = load_with(cfg, text, "text", route=(i // 3) % 4)
                     if io.py_to_j(erase(sub2)) != io.py_to_j(base) and bad is None:
                         from .c03 import first_diff
                         bad = {"what": "with a real class outside the numbers tower the result differs otherwise: "
@@ -188,7 +200,7 @@ def run(ctx):
                 from .c03 import first_diff
                 why = "supplying the substitutes changed the result otherwise: " + first_diff(io.py_to_j(erase(sub)), io.py_to_j(base))
             if why and bad is None:
-                bad = {"what": why, "cfg": cfg, "text": text}
+                bad = {"what": why + " (substitutes supplied by route %d)" % (i % 4), "cfg": cfg, "text": text, "route": i % 4}
             if i % 100 == 0 and len(samples) < 6:
                 samples.append({"cfg": cfg, "text": text[:140]})
     if bad:
@@ -198,7 +210,7 @@ def run(ctx):
     cov = {"evaluations": total, "distinct_nontrivial": sum(v for k, v in stats.items() if k.endswith(":ok")),
            "rule": "%d generated well-formed labels per configuration (reals in every grammar position: top level, "
                    "sequences, sets, quantity magnitudes, nested blocks) loaded with real_cls = a recording Decimal "
-                   "subclass, quantity_cls, module/group/object substitutes; recursive walk of the result for types; "
+                   "subclass, quantity_cls, module/group/object substitutes, supplied by four routes in turn (shared grammar object, decoder with its own grammar object, decoder without grammar, pvl.loads keywords); recursive walk of the result for types; "
                    "texts handed to the real class compared with the literals as written; result with substitutions "
                    "erased compared with the plain load" % n,
            "outcomes": dict(stats), "samples": samples, "theorems": lean["names"], "lean_problems": lean["problems"]}
@@ -210,7 +222,7 @@ def replay(ctx, path):
     d = json.load(open(path))
     try:
         base = load_with(d["cfg"], d["text"], False)
-        sub = load_with(d["cfg"], d["text"], True)
+        sub = load_with(d["cfg"], d["text"], True, route=d.get("route", 0))
     except Exception as e:
         print("load failed:", type(e).__name__)
         print("VIOLATION property=C18 replay=%s" % path)
